@@ -67,9 +67,10 @@ def check(ctx):
         vs = gen.random_vars(rng, rng.randrange(1, 6))
         progs.setdefault(gen.compile_layout(vs, rng), "idioms")
     keys = list(progs.keys())
-    if ctx.replay_in:
+    stage = vlib.stage_replay(ctx)
+    if ctx.replay_in and not stage:
         keys = [bytes.fromhex(json.load(open(ctx.replay_in))["replay"]["code"])]
-    if hb:
+    if hb and not stage:
         table = L.keccak_table(hb)
         vmo = L.vm(ctx, hb, keys)
         ano = L.analyze(ctx, hb, keys)
@@ -90,5 +91,7 @@ def check(ctx):
         ctx.coverage.update({"evaluations": len(keys), "distinct_nontrivial": ok_layouts,
                              "input_classes": dict(collections.Counter(progs.values())),
                              "analysis_classes": dict(collections.Counter(str(L.xa_class(a)) for a in ano))})
+    import p_passes_slots
+    p_passes_slots.suite(ctx, translate=False, codes={11}, cov_key="lifting_passes_slots", only=r"^(pass_keeps|C06_|unwritten_|literal_key|default_pipeline_shape)")
     return vlib.finish(ctx, rule="distinct programs; non-trivial = the analysis succeeded with a non-empty layout (every literal key of "
                        "every path checked against it)", samples=[c.hex()[:120] for c in keys[:3]])
